@@ -131,6 +131,35 @@ class Mod:
                 out[st.name] = st
         return out
 
+    def methods_mro(self, cls: str, _depth: int = 0) -> dict[str, ast.FunctionDef]:
+        """the methods an instance of the class finds: its own and those of its base classes - in this module or imported from another
+        module of the package (`from pendulum.mixins.default import FormattableMixin`); classes of the standard library contribute nothing
+        (a world says what they answer)"""
+        out: dict[str, ast.FunctionDef] = {}
+        if _depth < 6:
+            imported = {}
+            for st in self.tree.body:
+                if isinstance(st, ast.ImportFrom) and st.level == 0 and (st.module or "").startswith("pendulum"):
+                    for a in st.names:
+                        imported[a.asname or a.name] = (st.module, a.name)
+            for base in reversed(self.cls(cls).bases):
+                bn = dotted(base)
+                if not bn or bn == cls:
+                    continue
+                try:
+                    if self.has_cls(bn):
+                        inh = self.methods_mro(bn, _depth + 1)
+                    elif bn in imported and imported[bn][0] != "pendulum":
+                        other = pmod(imported[bn][0][len("pendulum."):])
+                        inh = other.methods_mro(imported[bn][1], _depth + 1) if other.has_cls(imported[bn][1]) else {}
+                    else:
+                        inh = {}
+                except AnchorMissing:
+                    inh = {}
+                out.update({k: f for k, f in inh.items() if not _is_abstract(f)})
+        out.update(self.methods(cls))
+        return out
+
     def class_aliases(self, cls: str) -> dict[str, str]:
         """`__radd__ = __add__` style aliases inside a class body."""
         out = {}
